@@ -80,11 +80,15 @@ fn marker(c: usize) -> String {
 fn gen_code(rng: &mut Rng, c: usize, max_n: u64, allow_bad: bool) -> Code {
     if allow_bad && rng.chance(1, 7) {
         let m = marker(c);
-        return Code::Raw(match rng.below(4) {
+        return Code::Raw(match rng.below(8) {
             0 => format!("s({m}a).ac({m}a,and({m}a)."),
             1 => format!("s({m}a)ac({m}a,c(v))."),
-            2 => format!("s({m}a).ac({m}a,{m}b)."),
-            _ => format!("s({m}a).ac({m}a,or({m}a,{m}a)). trailing"),
+            2 | 3 => format!("s({m}a).ac({m}a,{m}b)."),
+            4 => format!("s({m}a).ac({m}a,or({m}a,{m}a)). trailing"),
+            // nothing but blank space: not a single fact, hence not an ADF
+            5 => "  \n ".to_string(),
+            6 => format!("s({m}a).ac({m}a,neg({m}a,{m}a))."),
+            _ => format!("s({m}a).ac({m}a,c(x))."),
         });
     }
     let n = rng.range(1, max_n) as usize;
@@ -886,7 +890,7 @@ async fn run_world(svc_cfg: &Service, case: &SrvCase, dec: Decisions, seed_for_k
     let trace = std::env::var("SRVSIM_TRACE").is_ok();
     let mut last_gate_client: Option<usize> = None;
     loop {
-        if run.violation.is_some() || run.w.harness_error.is_some() {
+        if run.violation.is_some() || run.w.harness_error.is_some() || run.w.hung_task.is_some() {
             break;
         }
         steps += 1;
@@ -1007,7 +1011,7 @@ async fn run_world(svc_cfg: &Service, case: &SrvCase, dec: Decisions, seed_for_k
         run.check_credentials();
     }
     // ---- quiescent end: everything released and completed --------------------------------
-    if run.violation.is_none() && run.w.harness_error.is_none() {
+    if run.violation.is_none() && run.w.harness_error.is_none() && run.w.hung_task.is_none() {
         final_phase(&mut run).await;
     }
     run.stats.add("steps", steps);
@@ -1024,6 +1028,10 @@ async fn run_world(svc_cfg: &Service, case: &SrvCase, dec: Decisions, seed_for_k
     let mut violation = run.violation.clone();
     if let Some(e) = harness_error {
         violation = Some(Violation::new("harness", "error", e).with_key("harness/error".into()));
+    }
+    if let Some(tid) = run.w.hung_task {
+        let what = run.w.tasks.get(&tid).map(|t| format!("{} of problem {} (client {})", t.task, t.adf_name, t.client)).unwrap_or_else(|| "a background task".into());
+        violation = Some(Violation::new("E-liveness", "computation-never-ends", format!("{what} was released and is still computing after 15 s of real time")));
     }
     let d = dec.borrow();
     let mut sig = Fnv::new();
@@ -1131,7 +1139,25 @@ impl Scenario for Service {
             self.gen_c17(rng, thorough)
         }
     }
+    /// Every world runs in its own forked child process: whatever process-global state the code
+    /// under test keeps (statics, thread-locals of pool threads, a poisoned lock) cannot leak
+    /// from one simulated world into the next, and a world that kills its process is a verdict.
     fn execute(&self, case: &SrvCase, dec: Decisions) -> RunResult {
+        if std::env::var("SRVSIM_NO_FORK").is_ok() {
+            return self.execute_here(case, dec);
+        }
+        crate::isolate::in_child(|| self.execute_here(case, dec))
+    }
+    fn simplify(&self, c: &SrvCase) -> Vec<SrvCase> {
+        self.simplify_case(c)
+    }
+    fn components(&self) -> serde_json::Value {
+        self.components_json()
+    }
+}
+
+impl Service {
+    fn execute_here(&self, case: &SrvCase, dec: Decisions) -> RunResult {
         let sys = actix_rt::System::with_tokio_rt(|| {
             tokio::runtime::Builder::new_current_thread()
                 .enable_all()
@@ -1140,9 +1166,17 @@ impl Scenario for Service {
                 .unwrap()
         });
         let key_seed = simcore::batch::case_hash(case);
-        sys.block_on(run_world(self, case, dec, key_seed))
+        let r = sys.block_on(run_world(self, case, dec, key_seed));
+        if r.violation.as_ref().map(|v| v.class == "computation-never-ends").unwrap_or(false) {
+            // dropping the runtime would wait for the closure that never ends
+            std::mem::forget(sys);
+        }
+        r
     }
-    fn simplify(&self, c: &SrvCase) -> Vec<SrvCase> {
+}
+
+impl Service {
+    pub fn simplify_case(&self, c: &SrvCase) -> Vec<SrvCase> {
         let mut out = Vec::new();
         if c.clients.len() > 1 {
             for i in (0..c.clients.len()).rev() {
@@ -1201,7 +1235,7 @@ impl Scenario for Service {
         }
         out
     }
-    fn components(&self) -> serde_json::Value {
+    pub fn components_json(&self) -> serde_json::Value {
         serde_json::json!({
             "real": ["every handler in /repo/server/src/adf.rs and user.rs, config.rs, double_labeled_graph.rs", "the App wiring cut out of /repo/server/src/main.rs (identity + cookie-session middleware, scopes, services)", "actix-web / actix-identity / actix-session / actix-multipart, argon2, bson (de)serialisation", "the whole solver library from /repo/lib (real crossbeam-channel)", "tokio runtime (current-thread) and its blocking pool"],
             "stub": ["MongoDB (in-memory store with a gate per call; equality filters, $set, unique index)", "names (candidates from the decision source)", "the network (requests are ServiceRequests, no sockets)", "the clock (tokio paused time, advanced only by decisions)"],
